@@ -218,6 +218,41 @@ Fixpoint cols_loop (a : abc) (items_of : pyval -> option (list pyval)) (ex : pyv
 Definition list_items (v : pyval) : option (list pyval) :=
   match v with PList l => Some l | _ => None end.
 
+(* ------------------------------------------------------------------ checks on the scores *)
+
+(* the validations lightmotif-py performs on a scoring matrix before handing it to the core
+   (ScoringMatrixData::{ensure_not_empty, ensure_ordered, ensure_finite}) *)
+Definition f32_is_nan (b : Z) : bool := F32.is_nan (F32.of_bits b).
+Definition f32_is_posinf (b : Z) : bool := b =? 2139095040.
+Definition f32_is_finite (b : Z) : bool := F32.is_finite (F32.of_bits b).
+
+Definition sm_empty (m : list (list Z)) : bool := match m with [] => true | _ => false end.
+Definition cells_nan (m : list (list Z)) : bool := existsb (existsb f32_is_nan) m.
+Definition cells_posinf (m : list (list Z)) : bool := existsb (existsb f32_is_posinf) m.
+
+(* ensure_ordered(distribution): no NaN; for a score distribution also no +inf and not empty *)
+Definition ordered_ok (distribution : bool) (m : list (list Z)) : bool :=
+  negb (cells_nan m || (distribution && (cells_posinf m || sm_empty m))).
+
+(* ensure_finite: not empty, symbol columns finite, default-symbol column neither NaN nor +inf *)
+Definition row_finite_ok (row : list Z) : bool :=
+  let k := (length row - 1)%nat in
+  forallb f32_is_finite (firstn k row) &&
+  negb (f32_is_nan (nth k row 0) || f32_is_posinf (nth k row 0)).
+Definition finite_ok (m : list (list Z)) : bool := negb (sm_empty m) && forallb row_finite_ok m.
+
+Definition f32_one : Z := 1065353216.
+(* log_odds: the base must be finite, positive and different from one *)
+Definition base_invalid (b : Z) : bool :=
+  let x := F32.of_bits b in
+  negb (F32.is_finite x) || F32.le x F32.zero || F32.eq x (F32.of_bits f32_one).
+
+Definition f64_is_nan (b : Z) : bool := F64.is_nan (F64.of_bits b).
+Definition f64_is_inf (b : Z) : bool := negb (F64.is_finite (F64.of_bits b)) && negb (f64_is_nan b).
+(* (0.0..=1.0).contains(&p) *)
+Definition pvalue_in_range (b : Z) : bool :=
+  F64.le F64.zero (F64.of_bits b) && F64.le (F64.of_bits b) (F64.of_bits f64_one).
+
 (* ------------------------------------------------------------------ the core library *)
 
 Inductive pseudo := PsScalar (x : Z) | PsArray (p : list Z).
@@ -251,6 +286,7 @@ Section Glue.
     c_scoring_new : abc -> list Z -> list (list Z) -> cres SM;
     c_revcomp : SM -> cres SM;
     c_max_score : SM -> cres Z;
+    c_sm_cells : SM -> list (list Z);                         (* the scores, row by row, as f32 bits *)
     c_stripe : abc -> list Z -> cres SQ;                      (* encode + to_striped *)
     c_configure : SQ -> SM -> cres SQ;                        (* StripedSequence::configure *)
     c_score : SM -> SQ -> cres SC;                            (* Pipeline::dispatch().score *)
@@ -372,6 +408,7 @@ Section Glue.
   (* wm.log_odds(background=None, base=2.0); PyO3 extracts `base: f32` before the body runs *)
   Definition glue_log_odds (a : abc) (w : WM) (bg base : option pyval) : outcome obj :=
     b <~ match base with None => Value f32_two | Some v => extract_f32 v end ;;
+    if base_invalid b then PyExc ValueError else
     g <~ glue_background a bg ;;
     w' <~ (if f32s_eqb g (c_w_bg K w) then Value w else liftp (c_rescale K w g)) ;;
     s <~ liftp (c_to_scoring_base K w' b) ;;
@@ -398,6 +435,7 @@ Section Glue.
   (* sm.calculate(sequence): configure the (shared, mutable) sequence, then score.
      Returns the outcome and the new value of the sequence object. *)
   Definition glue_calculate (a : abc) (s : SM) (aq : abc) (q : SQ) : outcome obj * SQ :=
+    if sm_empty (c_sm_cells K s) then (PyExc ValueError, q) else
     if abc_eqb a aq then
       match c_configure K q s with
       | COk q' => (sc <~ liftp (c_score K s q') ;; Value (OScores sc), q')
@@ -433,23 +471,39 @@ Section Glue.
   Definition method_arg (m : option pyval) : outcome (list Z) :=
     match m with None => Value str_meme | Some v => extract_str v end.
 
-  (* sm.pvalue(score, method="meme") *)
+  (* sm.pvalue(score, method="meme"): the score must not be NaN (nor infinite for TFM-PVALUE);
+     TFM-PVALUE needs a non-empty matrix with finite scores, the MEME distribution an ordered,
+     non-empty matrix without +inf *)
   Definition glue_pvalue (s : SM) (x : pyval) (method : option pyval) : outcome result :=
     v <~ extract_f64 x ;;
     m <~ method_arg method ;;
-    if zlist_eqb m str_tfmpvalue then p <~ liftp (c_tfm_pvalue K s v) ;; Value (RF64 p)
-    else if zlist_eqb m str_meme then p <~ liftp (c_dist_pvalue K s (f64_to_f32_bits v)) ;; Value (RF64 p)
+    if f64_is_nan v || (f64_is_inf v && zlist_eqb m str_tfmpvalue) then PyExc ValueError else
+    if zlist_eqb m str_tfmpvalue then
+      if finite_ok (c_sm_cells K s) then p <~ liftp (c_tfm_pvalue K s v) ;; Value (RF64 p)
+      else PyExc ValueError
+    else if zlist_eqb m str_meme then
+      if ordered_ok true (c_sm_cells K s)
+      then p <~ liftp (c_dist_pvalue K s (f64_to_f32_bits v)) ;; Value (RF64 p)
+      else PyExc ValueError
     else PyExc ValueError.
 
-  (* sm.score(pvalue, method="meme") *)
+  (* sm.score(pvalue, method="meme"): the p-value must lie in [0, 1] *)
   Definition glue_score (s : SM) (x : pyval) (method : option pyval) : outcome result :=
     v <~ extract_f64 x ;;
     m <~ method_arg method ;;
-    if zlist_eqb m str_tfmpvalue then p <~ liftp (c_tfm_score K s v) ;; Value (RF64 p)
-    else if zlist_eqb m str_meme then p <~ liftp (c_dist_score K s v) ;; Value (RF64 (f32_to_f64_bits p))
+    if negb (pvalue_in_range v) then PyExc ValueError else
+    if zlist_eqb m str_tfmpvalue then
+      if finite_ok (c_sm_cells K s) then p <~ liftp (c_tfm_score K s v) ;; Value (RF64 p)
+      else PyExc ValueError
+    else if zlist_eqb m str_meme then
+      if ordered_ok true (c_sm_cells K s)
+      then p <~ liftp (c_dist_score K s v) ;; Value (RF64 (f32_to_f64_bits p))
+      else PyExc ValueError
     else PyExc ValueError.
 
-  Definition glue_max_score (s : SM) : outcome result := m <~ liftp (c_max_score K s) ;; Value (RF32 m).
+  Definition glue_max_score (s : SM) : outcome result :=
+    if ordered_ok false (c_sm_cells K s) then m <~ liftp (c_max_score K s) ;; Value (RF32 m)
+    else PyExc ValueError.
 
   (* sm.reverse_complement() *)
   Definition glue_revcomp (a : abc) (s : SM) : outcome obj :=
@@ -466,8 +520,10 @@ Section Glue.
     if b =? 0 then PyExc ValueError else Value (t, b).
 
   Definition glue_scan (a : abc) (s : SM) (aq : abc) (q : SQ) (t b : Z) : outcome obj * SQ :=
+    if negb (ordered_ok false (c_sm_cells K s)) then (PyExc ValueError, q) else
     match a, aq with
     | Dna, Dna =>
+        if sm_empty (c_sm_cells K s) then (PyExc ValueError, q) else
         match c_configure K q s with
         | COk q' => (h <~ liftp (c_scan K s q' t b) ;; Value (OScanner h), q')
         | _ => (Panic, q)
@@ -833,6 +889,7 @@ Arguments c_to_scoring_base {CM FM WM SM SQ SC} _.
 Arguments c_scoring_new {CM FM WM SM SQ SC} _.
 Arguments c_revcomp {CM FM WM SM SQ SC} _.
 Arguments c_max_score {CM FM WM SM SQ SC} _.
+Arguments c_sm_cells {CM FM WM SM SQ SC} _.
 Arguments c_stripe {CM FM WM SM SQ SC} _.
 Arguments c_configure {CM FM WM SM SQ SC} _.
 Arguments c_score {CM FM WM SM SQ SC} _.
